@@ -558,6 +558,430 @@ Proof.
     + pose proof (chain_in_range _ _ _ C Iu). lia.
 Qed.
 
+(** * The asynchronous persister: any completion pattern *)
+Definition asinv (s : mstate) (base : monitor) (pend : list Up) (safe : Z) : Prop :=
+  ainv (durable s) base pend /\
+  (forall k, In k (limbo s) -> touches k = true -> exists i, k = KUpd m i /\ i <= mid base) /\
+  (forall i v, get (durable s) (KUpd m i) = Some v -> i <= mid (mem base pend)) /\
+  safe <= mid (mem base pend) /\
+  (forall u, In u pend -> uid u <= safe -> present (durable s) (uid u)).
+
+Lemma mem_mid_len base pend : chain base pend -> mid (mem base pend) = mid base + Z.of_nat (List.length pend).
+Proof. apply fold_upd_mid. Qed.
+
+(* the update write of an update-only call became durable *)
+Lemma asinv_write_update s base pend safe u :
+  asinv s base pend safe -> uid u = mid (mem base pend) + 1 -> uid u < LEGACY_ID ->
+  asinv (aop s (SWrite (KUpd m (uid u)) (VUpd u))) base (pend ++ [u]) safe.
+Proof.
+  intros ([ND (sent & Hm) C Leg A] & L & Top & Hs & P) E Hl.
+  pose proof (mem_mid_len _ _ C) as ML.
+  split; [|split; [|split; [|split]]].
+  - constructor; sc.
+    + apply nodup_set. exact ND.
+    + exists sent. rewrite get_set_other by discriminate. exact Hm.
+    + apply chain_app; auto.
+    + intros x I. apply in_app_or in I. destruct I as [I|[<-|[]]]; auto.
+    + intros i v G Hi. destruct (Z.eq_dec i (uid u)) as [->|Hne].
+      * rewrite get_set_same in G. inversion G; subst. exists u. repeat split; auto. apply in_or_app. right. left. reflexivity.
+      * rewrite get_set_other in G by congruence. destruct (A _ _ G Hi) as (x & Ix & Ex & Ev). exists x. repeat split; auto. apply in_or_app. auto.
+  - sc. intros k I T. apply in_l_del in I. auto.
+  - sc. intros i v G. rewrite mem_app. cbn [upd mid]. destruct (Z.eq_dec i (uid u)) as [->|Hne]; [lia|].
+    rewrite get_set_other in G by congruence. specialize (Top _ _ G). lia.
+  - rewrite mem_app. cbn [upd mid]. lia.
+  - sc. intros x I Hx. apply in_app_or in I. destruct I as [I|[<-|[]]].
+    + destruct (P _ I Hx) as (v & G). exists v. rewrite get_set_other; auto.
+      intros Heq. inversion Heq as [Hid]. pose proof (chain_in_range _ _ _ C I). lia.
+    + exists (VUpd u). apply get_set_same.
+Qed.
+
+(* nothing of the call became durable, but the in-memory monitor moved on *)
+Lemma asinv_skip_update s base pend safe u :
+  asinv s base pend safe -> uid u = mid (mem base pend) + 1 -> uid u < LEGACY_ID ->
+  asinv s base (pend ++ [u]) safe.
+Proof.
+  intros ([ND (sent & Hm) C Leg A] & L & Top & Hs & P) E Hl.
+  split; [|split; [|split; [|split]]]; auto.
+  - constructor; auto.
+    + eauto.
+    + apply chain_app; auto.
+    + intros x I. apply in_app_or in I. destruct I as [I|[<-|[]]]; auto.
+    + intros i v G Hi. destruct (A _ _ G Hi) as (x & Ix & Ex & Ev). exists x. repeat split; auto. apply in_or_app. auto.
+  - intros i v G. rewrite mem_app. cbn [upd mid]. specialize (Top _ _ G). lia.
+  - rewrite mem_app. cbn [upd mid]. lia.
+  - intros x I Hx. apply in_app_or in I. destruct I as [I|[<-|[]]]; auto. lia.
+Qed.
+
+(* a full monitor write became durable *)
+Lemma asinv_write_monitor s base pend safe sent mon' :
+  asinv s base pend safe -> mid (mem base pend) <= mid mon' ->
+  asinv (aop s (SWrite (KMon m) (VMon sent mon'))) mon' [] safe.
+Proof.
+  intros ([ND (sent0 & Hm) C Leg A] & L & Top & Hs & P) Hle.
+  pose proof (mem_mid_len _ _ C) as ML.
+  split; [|split; [|split; [|split]]].
+  - constructor; sc.
+    + apply nodup_set. exact ND.
+    + exists sent. apply get_set_same.
+    + exact I.
+    + intros u [].
+    + intros i v G Hi. rewrite get_set_other in G by discriminate. specialize (Top _ _ G). lia.
+  - sc. intros k I T. apply in_l_del in I. destruct (L _ I T) as (i & -> & Hi). exists i. split; auto. lia.
+  - sc. intros i v G. rewrite get_set_other in G by discriminate. specialize (Top _ _ G). cbn. lia.
+  - cbn. lia.
+  - intros u [].
+Qed.
+
+Lemma asinv_benign s base pend safe o : asinv s base pend safe -> benign base o -> asinv (aop s o) base pend safe.
+Proof.
+  intros ([ND (sent & Hm) C Leg A] & L & Top & Hs & P) B.
+  assert (TM : touches (KMon m) = true) by (cbn; apply Z.eqb_refl).
+  assert (TU : forall i, touches (KUpd m i) = true) by (intros; cbn; apply Z.eqb_refl).
+  assert (Hpend : forall u, In u pend -> mid base < uid u) by (intros u I; pose proof (chain_in_range _ _ _ C I); lia).
+  destruct B as [T|(j & lazy & -> & Hj)].
+  - assert (Hk : forall k', touches k' = true -> k' <> sop_key o) by (intros k' T' ->; congruence).
+    destruct o as [k v|k [|]]; cbn [sop_key] in *.
+    + split; [|split; [|split; [|split]]].
+      * constructor; sc.
+        -- apply nodup_set; auto.
+        -- exists sent. rewrite get_set_other; auto.
+        -- exact C.
+        -- exact Leg.
+        -- intros i v' G Hi. rewrite get_set_other in G; eauto.
+      * sc. intros k' I T'. apply in_l_del in I. auto.
+      * sc. intros i v' G. rewrite get_set_other in G; eauto.
+      * exact Hs.
+      * sc. intros u I Hu. destruct (P _ I Hu) as (v' & G). exists v'. rewrite get_set_other; auto.
+    + split; [|split; [|split; [|split]]].
+      * constructor; sc; eauto.
+      * sc. intros k' [<-|I] T'; [congruence|auto].
+      * sc. exact Top.
+      * exact Hs.
+      * sc. exact P.
+    + split; [|split; [|split; [|split]]].
+      * constructor; sc.
+        -- apply nodup_del; auto.
+        -- exists sent. rewrite get_del_other; auto.
+        -- exact C.
+        -- exact Leg.
+        -- intros i v' G Hi. rewrite get_del_other in G; eauto.
+      * sc. intros k' I T'. apply in_l_del in I. auto.
+      * sc. intros i v' G. rewrite get_del_other in G; eauto.
+      * exact Hs.
+      * sc. intros u I Hu. destruct (P _ I Hu) as (v' & G). exists v'. rewrite get_del_other; auto.
+  - destruct lazy.
+    + split; [|split; [|split; [|split]]].
+      * constructor; sc; eauto.
+      * sc. intros k' [<-|I] T'; eauto.
+      * sc. exact Top.
+      * exact Hs.
+      * sc. exact P.
+    + split; [|split; [|split; [|split]]].
+      * constructor; sc.
+        -- apply nodup_del; auto.
+        -- exists sent. rewrite get_del_other by discriminate. auto.
+        -- exact C.
+        -- exact Leg.
+        -- intros i v' G Hi. destruct (Z.eq_dec i j) as [->|Hne]; [lia|]. rewrite get_del_other in G by congruence. eauto.
+      * sc. intros k' I T'. apply in_l_del in I. auto.
+      * sc. intros i v' G. destruct (Z.eq_dec i j) as [->|Hne]; [rewrite get_del_same in G; discriminate|].
+        rewrite get_del_other in G by congruence. eauto.
+      * exact Hs.
+      * sc. intros u I Hu. destruct (P _ I Hu) as (v' & G). exists v'. rewrite get_del_other; auto.
+        intros Heq. inversion Heq. specialize (Hpend _ I). lia.
+Qed.
+
+Lemma asinv_benign_ops : forall ops s base pend safe,
+  asinv s base pend safe -> Forall (benign base) ops -> asinv (apply_sops mkey_eqb s ops) base pend safe.
+Proof.
+  induction ops as [|o ops IH]; intros s base pend safe H F; [exact H|].
+  inversion F; subst. unfold apply_sops. cbn [fold_left]. apply IH; auto. apply asinv_benign; auto.
+Qed.
+
+Lemma select_forall {A} (P : A -> Prop) : forall l sel, Forall P l -> Forall P (select l sel).
+Proof.
+  induction l as [|x l IH]; intros sel F; destruct sel as [|[|] sel]; cbn; auto.
+  - inversion F; subst. constructor; auto.
+  - inversion F; subst. auto.
+Qed.
+
+(** what an observer sees still satisfies [ainv], and keeps the updates up to [safe] *)
+Lemma asinv_view s base pend safe gone : asinv s base pend safe ->
+  ainv (view mkey_eqb s gone) base pend /\
+  (forall u, In u pend -> uid u <= safe -> present (view mkey_eqb s gone) (uid u)).
+Proof.
+  intros ([ND (sent & Hm) C Leg A] & L & Top & Hs & P).
+  set (keep := fun k : mkey => negb (existsb (fun g => mkey_eqb g k) gone && existsb (fun g => mkey_eqb g k) (limbo s))).
+  assert (Hv : view mkey_eqb s gone = filter (fun kv => keep (fst kv)) (durable s)) by reflexivity.
+  rewrite Hv. clear Hv.
+  assert (Hkeep : forall k, touches k = true -> (forall i, k = KUpd m i -> mid base < i) -> keep k = true).
+  { intros k T Hi. unfold keep. destruct (existsb (fun g => mkey_eqb g k) (limbo s)) eqn:E.
+    - apply existsb_exists in E. destruct E as (g & I & E). apply mkey_eqb_spec in E. subst g.
+      destruct (L _ I T) as (i & -> & Hle). specialize (Hi _ eq_refl). lia.
+    - rewrite andb_false_r. reflexivity. }
+  split.
+  - constructor; auto.
+    + apply nodup_filter. exact ND.
+    + exists sent. rewrite (get_filter keep). rewrite Hkeep; auto; [cbn; apply Z.eqb_refl|intros i Hi; discriminate].
+    + intros i v G Hi. rewrite (get_filter keep) in G. destruct (keep (KUpd m i)); [eauto|discriminate].
+  - intros u I Hu. destruct (P _ I Hu) as (v & G). exists v. rewrite (get_filter keep). rewrite Hkeep; auto.
+    + cbn. apply Z.eqb_refl.
+    + intros i Hi. inversion Hi; subst i. pose proof (chain_in_range _ _ _ C I). lia.
+Qed.
+
+Lemma nth_error_chain : forall pend base c u, chain base pend -> nth_error pend c = Some u ->
+  uid u = mid base + Z.of_nat c + 1.
+Proof.
+  induction pend as [|u0 r IH]; intros base c u C E; destruct c; cbn in E; try discriminate.
+  - inversion E; subst. destruct C. lia.
+  - destruct C as (E0 & C). rewrite (IH _ _ _ C E). cbn. lia.
+Qed.
+
+Lemma chain_firstn : forall pend base c, chain base pend -> chain base (firstn c pend).
+Proof.
+  induction pend as [|u r IH]; intros base c C; destruct c; cbn; auto. destruct C. split; auto.
+Qed.
+
+(** Recovery from any state of the asynchronous persister: a monitor obtained from the stored one by a
+    consecutive run of updates, at least as recent as [safe]. *)
+Lemma asinv_recover s base pend safe gone : asinv s base pend safe ->
+  exists c, read_with_updates _ _ apply uid (view mkey_eqb s gone) m = ROk (mem base (firstn c pend)) /\
+            safe <= mid (mem base (firstn c pend)).
+Proof.
+  intros H. pose proof H as ([_ _ C _ _] & _ & _ & Hs & _).
+  destruct (asinv_view _ _ _ _ gone H) as (AV & PV).
+  destruct (recover_gappy _ _ _ AV) as (c & R & Hp & Hn). exists c. split; auto.
+  rewrite (mem_mid_len _ _ (chain_firstn _ _ c C)).
+  destruct (nth_error pend c) as [u|] eqn:E.
+  - pose proof (nth_error_chain _ _ _ _ C E) as Eu.
+    assert (Hlen : (c < List.length pend)%nat) by (apply nth_error_Some; congruence).
+    rewrite firstn_length, Nat.min_l by lia.
+    destruct (Z.le_gt_cases (uid u) safe) as [Hle|Hgt]; [|lia].
+    exfalso. apply (Hn u eq_refl). apply PV; auto. eapply nth_error_In; eauto.
+  - apply nth_error_None in E. rewrite firstn_all2 by lia. rewrite <- (mem_mid_len _ _ C). exact Hs.
+Qed.
+
+(** ** call by call *)
+Definition no_cleanup (c : call St Up) : Prop := match c with CCleanup _ _ => False | _ => True end.
+
+Lemma call_ok_next cur c cur' : call_ok cur c cur' -> next_mem _ _ cur c = cur'.
+Proof. intros OK. inversion OK; subst; reflexivity. Qed.
+
+Lemma firstn_snoc {A} (l : list A) x n :
+  firstn n (l ++ [x]) = firstn n l \/ firstn n (l ++ [x]) = l ++ [x].
+Proof.
+  destruct (Nat.le_gt_cases n (List.length l)).
+  - left. rewrite firstn_app. replace (n - List.length l)%nat with 0%nat by lia. cbn. apply app_nil_r.
+  - right. apply firstn_all2. rewrite app_length. cbn. lia.
+Qed.
+
+Lemma asinv_raise s base pend safe safe' : asinv s base pend safe ->
+  (forall u, In u pend -> present (durable s) (uid u)) -> safe' <= mid (mem base pend) ->
+  asinv s base pend safe'.
+Proof. intros (A & L & Top & Hs & P) Hall Hle. split; [|split; [|split; [|split]]]; auto. Qed.
+
+(** one call of the asynchronous persister with an arbitrary durability outcome [x] *)
+Lemma async_call s base pend safe cur c cur' x :
+  asinv s base pend safe -> mem base pend = cur -> call_ok cur c cur' -> no_cleanup c ->
+  exists base' pend',
+    asinv (apply_sops mkey_eqb s (sel_ops _ _ (call_ops _ _ uid maxp s c) x)) base' pend' safe /\
+    mem base' pend' = cur' /\
+    (forall n, (exists n0, mem base' (firstn n pend') = mem base (firstn n0 pend)) \/
+               mem base' (firstn n pend') = cur') /\
+    (x <> SelNone -> (forall u, In u pend -> present (durable s) (uid u)) ->
+     forall u, In u pend' ->
+       present (durable (apply_sops mkey_eqb s (sel_ops _ _ (call_ops _ _ uid maxp s c) x))) (uid u)).
+Proof.
+  intros H M OK NC. pose proof H as ([_ _ C _ _] & _ & Top & Hs & _).
+  inversion OK as [? u Eu Hl | ? | ? lazy gone | ? ops Fo]; subst; cbn [call_ops]; try contradiction.
+  - (* update *)
+    unfold update_ops.
+    destruct (negb (uid u =? LEGACY_ID) && negb (maxp =? 0) && negb (uid u mod maxp =? 0)) eqn:D.
+    + (* update only *)
+      destruct x as [|rem]; cbn [sel_ops select]; unfold apply_sops; cbn [fold_left].
+      * exists base, (pend ++ [u]). split; [|split; [|split]].
+        -- apply asinv_skip_update; auto.
+        -- apply mem_app.
+        -- intros n. destruct (firstn_snoc pend u n) as [->| ->]; [left; eauto|right; apply mem_app].
+        -- intros X. contradiction.
+      * assert (Hsel : select (@nil mop) rem = []) by (destruct rem as [|[|] ?]; reflexivity).
+        try rewrite Hsel. cbn [select fold_left].
+        exists base, (pend ++ [u]). split; [|split; [|split]].
+        -- apply asinv_write_update; auto.
+        -- apply mem_app.
+        -- intros n. destruct (firstn_snoc pend u n) as [->| ->]; [left; eauto|right; apply mem_app].
+        -- intros _ Hall x Ix. apply in_app_or in Ix. sc. destruct Ix as [Ix|[<-|[]]].
+           ++ destruct (Hall _ Ix) as (v & G). exists v. rewrite get_set_other; auto.
+              intros Heq. inversion Heq. pose proof (chain_in_range _ _ _ C Ix). pose proof (mem_mid_len _ _ C). lia.
+           ++ exists (VUpd u). apply get_set_same.
+    + (* consolidation: full monitor, then (after it completed) the in-range clean-up *)
+      cbn [mid upd]. replace (uid u =? LEGACY_ID) with false by (symmetry; apply Z.eqb_neq; lia).
+      unfold persist_new_ops. cbn [app].
+      destruct x as [|rem]; cbn [sel_ops]; unfold apply_sops; cbn [fold_left].
+      * exists base, (pend ++ [u]). split; [|split; [|split]].
+        -- apply asinv_skip_update; auto.
+        -- apply mem_app.
+        -- intros n. destruct (firstn_snoc pend u n) as [->| ->]; [left; eauto|right; apply mem_app].
+        -- intros X. contradiction.
+      * exists (upd (mem base pend) u), []. split; [|split; [reflexivity|split]].
+        -- apply asinv_benign_ops.
+           ++ eapply asinv_write_monitor; eauto. cbn. lia.
+           ++ apply select_forall. unfold cleanup_in_range_ops. rewrite Forall_forall. intros o I. apply in_map_iff in I.
+              destruct I as (i & <- & I). apply zrange_incl_le in I. right. exists i, true. split; auto. cbn. lia.
+        -- intros n. right. rewrite firstn_nil. reflexivity.
+        -- intros _ _ x [].
+  - (* full re-persist *)
+    unfold update_ops, persist_new_ops.
+    destruct x as [|rem]; cbn [sel_ops]; unfold apply_sops; cbn [fold_left].
+    + exists base, pend. split; [exact H|split; [reflexivity|split]]; [intros n; left; eauto|intros X; contradiction].
+    + assert (Hsel : select (@nil mop) rem = []) by (destruct rem as [|[|] ?]; reflexivity).
+      try rewrite Hsel. cbn [select fold_left]. exists (mem base pend), []. split; [|split; [reflexivity|split]].
+      * eapply asinv_write_monitor; eauto. lia.
+      * intros n. right. rewrite firstn_nil. reflexivity.
+      * intros _ _ x [].
+  - (* other traffic *)
+    assert (Fb : Forall (benign base) ops) by (rewrite Forall_forall in *; intros o I; left; auto).
+    exists base, pend. split; [|split; [reflexivity|split]].
+    + apply asinv_benign_ops; auto. destruct x as [|rem]; destruct ops as [|w rs]; cbn [sel_ops]; try constructor.
+      * inversion Fb; auto.
+      * apply select_forall. inversion Fb; auto.
+    + intros n. left. eauto.
+    + intros _ Hall x0 Ix. destruct (Hall _ Ix) as (v & G).
+      assert (Fb' : Forall (benign base) (sel_ops _ _ ops x)).
+      { destruct x as [|rem]; destruct ops as [|w rs]; cbn [sel_ops]; try constructor.
+        - inversion Fb; auto.
+        - apply select_forall. inversion Fb; auto. }
+      pose proof (asinv_raise _ _ _ _ (mid base) H Hall ltac:(apply mem_mid; auto)) as H2.
+      pose proof (asinv_benign_ops _ _ _ _ _ H2 Fb') as (_ & _ & _ & _ & P').
+      (* presence of every pending update is only guaranteed up to safe; redo it directly *)
+      clear P' H2.
+      revert Fb'. generalize (sel_ops _ _ ops x). intros l Fl.
+      assert (Gen : forall l s0, Forall (benign base) l ->
+                (exists v0, get (durable s0) (KUpd m (uid x0)) = Some v0) ->
+                exists v0, get (durable (apply_sops mkey_eqb s0 l)) (KUpd m (uid x0)) = Some v0).
+      { clear - C Ix. induction l as [|o l IHl]; intros s0 F0 (v0 & G0); [eauto|].
+        inversion F0 as [|? ? B F0']; subst. unfold apply_sops. cbn [fold_left]. apply IHl; auto.
+        pose proof (chain_in_range _ _ _ C Ix) as R.
+        destruct B as [T|(j & lazy & -> & Hj)].
+        - assert (Hk : KUpd m (uid x0) <> sop_key o) by (intros E; rewrite <- E in T; cbn in T; rewrite Z.eqb_refl in T; discriminate).
+          destruct o as [k0 v1|k0 [|]]; cbn [sop_key apply_sop durable] in *.
+          + exists v0. rewrite get_set_other; auto.
+          + eauto.
+          + exists v0. rewrite get_del_other; auto.
+        - destruct lazy; cbn [apply_sop durable]; [eauto|]. exists v0. rewrite get_del_other; auto.
+          intros Heq. inversion Heq. lia. }
+      apply Gen; eauto.
+Qed.
+
+Lemma async_hist : forall cs sels s base pend safe cur fin,
+  asinv s base pend safe -> mem base pend = cur -> hist_ok cur cs fin -> Forall no_cleanup cs ->
+  exists base' pend', asinv (async_run _ _ uid maxp s cs sels) base' pend' safe /\
+    forall n, (exists n0, mem base' (firstn n pend') = mem base (firstn n0 pend)) \/
+              In (mem base' (firstn n pend')) (mems _ _ cur cs).
+Proof.
+  induction cs as [|c cs IH]; intros sels s base pend safe cur fin H M HO NC.
+  - cbn. exists base, pend. split; auto. intros n. left. eauto.
+  - destruct sels as [|x xs].
+    + cbn. exists base, pend. split; auto. intros n. left. eauto.
+    + inversion HO as [|? ? cur' ? ? OK HO']; subst. inversion NC as [|? ? NC1 NC']; subst.
+      destruct (async_call _ _ _ _ _ _ _ x H eq_refl OK NC1) as (b1 & p1 & H1 & M1 & R1 & _).
+      destruct (IH xs _ _ _ _ _ _ H1 M1 HO' NC') as (b2 & p2 & H2 & R2).
+      exists b2, p2. split; [exact H2|].
+      intros n. cbn [mems]. rewrite (call_ok_next _ _ _ OK).
+      destruct (R2 n) as [(n0 & E)|I].
+      * rewrite E. destruct (R1 n0) as [(n1 & E1)|E1].
+        -- left. eauto.
+        -- right. right. rewrite E1, <- M1. destruct cs; cbn; auto.
+      * right. right. exact I.
+Qed.
+
+(** the same when every call so far completed: everything pending is present *)
+Lemma async_hist_complete : forall cs sels s base pend cur fin,
+  asinv s base pend (mid cur) -> mem base pend = cur ->
+  (forall u, In u pend -> present (durable s) (uid u)) ->
+  hist_ok cur cs fin -> Forall no_cleanup cs ->
+  List.length sels = List.length cs -> Forall (fun x => x <> SelNone) sels ->
+  exists base' pend', asinv (async_run _ _ uid maxp s cs sels) base' pend' (mid fin) /\ mem base' pend' = fin /\
+    (forall u, In u pend' -> present (durable (async_run _ _ uid maxp s cs sels)) (uid u)).
+Proof.
+  induction cs as [|c cs IH]; intros sels s base pend cur fin H M Hall HO NC Hlen Fs.
+  - inversion HO; subst. cbn. exists base, pend. auto.
+  - destruct sels as [|x xs]; [discriminate|].
+    inversion HO as [|? ? cur' ? ? OK HO']; subst. inversion NC as [|? ? NC1 NC']; subst.
+    inversion Fs as [|? ? Fx Fs']; subst.
+    destruct (async_call _ _ _ _ _ _ _ x H eq_refl OK NC1) as (b1 & p1 & H1 & M1 & _ & P1).
+    specialize (P1 Fx Hall).
+    assert (H1' : asinv (apply_sops mkey_eqb s (sel_ops _ _ (call_ops _ _ uid maxp s c) x)) b1 p1 (mid cur')).
+    { apply asinv_raise with (safe := mid (mem base pend)); auto. rewrite M1. lia. }
+    cbn [async_run]. apply (IH xs _ b1 p1 cur' fin); auto.
+Qed.
+
+Lemma asinv_init mon0 :
+  asinv (run_call _ _ uid maxp (@empty_state St Up) (CNew m mon0)) mon0 [] (mid mon0).
+Proof.
+  unfold run_call. cbn. split; [|split; [|split; [|split]]].
+  - constructor; cbn.
+    + constructor; [intros []|constructor].
+    + exists (negb (maxp =? 0)). unfold kv_get. cbn. rewrite Z.eqb_refl. reflexivity.
+    + exact I.
+    + intros u [].
+    + intros i v G. unfold kv_get in G. cbn in G. discriminate.
+  - cbn. intros k [].
+  - intros i v G. unfold kv_get in G. cbn in G. discriminate.
+  - cbn. lia.
+  - intros u [].
+Qed.
+
+Lemma async_run_app : forall cs1 sels1 (s : mstate) cs2 sels2, List.length sels1 = List.length cs1 ->
+  async_run St Up uid maxp s (cs1 ++ cs2) (sels1 ++ sels2) =
+  async_run _ _ uid maxp (async_run _ _ uid maxp s cs1 sels1) cs2 sels2.
+Proof.
+  induction cs1 as [|c cs1 IH]; intros sels1 s cs2 sels2 Hl; destruct sels1 as [|x xs]; try discriminate; cbn; auto.
+Qed.
+
+Lemma hist_ok_app : forall cs1 cur mid_ cs2 fin, hist_ok cur cs1 mid_ -> hist_ok mid_ cs2 fin -> hist_ok cur (cs1 ++ cs2) fin.
+Proof. induction cs1; intros cur mid_ cs2 fin H1 H2; inversion H1; subst; cbn; auto. econstructor; eauto. Qed.
+
+(** Asynchronous persister, ANY durability outcome of every call: recovery never fails and returns
+    one of the in-memory monitors of the history. *)
+Theorem async_safe mon0 cs fin sels gone :
+  hist_ok mon0 cs fin -> Forall no_cleanup cs ->
+  let s := async_run _ _ uid maxp (@empty_state St Up) (CNew m mon0 :: cs) (SelWrite [] :: sels) in
+  exists r, read_with_updates _ _ apply uid (view mkey_eqb s gone) m = ROk r /\ In r (mems _ _ mon0 cs).
+Proof.
+  intros HO NC. cbv zeta. cbn [async_run call_ops]. unfold persist_new_ops. cbn [sel_ops select].
+  change (apply_sops mkey_eqb (@empty_state St Up) [SWrite (KMon m) (VMon (negb (maxp =? 0)) mon0)])
+    with (run_call _ _ uid maxp (@empty_state St Up) (CNew m mon0)).
+  destruct (async_hist cs sels _ _ _ _ _ _ (asinv_init mon0) eq_refl HO NC) as (b & p & H & R).
+  destruct (asinv_recover _ _ _ _ gone H) as (c & Rd & _).
+  exists (mem b (firstn c p)). split; auto.
+  destruct (R c) as [(n0 & E)|I]; auto. rewrite E. rewrite firstn_nil. cbn. destruct cs; cbn; auto.
+Qed.
+
+(** ... and it is at least as recent as the in-memory monitor after the last call of a fully completed
+    prefix of the history (everything reported persisted is included). *)
+Theorem async_reported mon0 cs1 cs2 fin1 fin sels1 sels2 gone :
+  hist_ok mon0 cs1 fin1 -> hist_ok fin1 cs2 fin -> Forall no_cleanup (cs1 ++ cs2) ->
+  List.length sels1 = List.length cs1 -> Forall (fun x => x <> SelNone) sels1 ->
+  let s := async_run _ _ uid maxp (@empty_state St Up) (CNew m mon0 :: cs1 ++ cs2) (SelWrite [] :: sels1 ++ sels2) in
+  exists r, read_with_updates _ _ apply uid (view mkey_eqb s gone) m = ROk r /\
+            In r (mems _ _ mon0 (cs1 ++ cs2)) /\ mid fin1 <= mid r.
+Proof.
+  intros HO1 HO2 NC Hlen Fs. cbv zeta.
+  destruct (async_safe mon0 (cs1 ++ cs2) fin (sels1 ++ sels2) gone (hist_ok_app _ _ _ _ _ HO1 HO2) NC) as (r & Rd & In_r).
+  exists r. split; auto. split; auto.
+  cbv zeta in Rd. cbn [async_run call_ops] in Rd. unfold persist_new_ops in Rd. cbn [sel_ops select] in Rd.
+  change (apply_sops mkey_eqb (@empty_state St Up) [SWrite (KMon m) (VMon (negb (maxp =? 0)) mon0)])
+    with (run_call _ _ uid maxp (@empty_state St Up) (CNew m mon0)) in Rd.
+  rewrite async_run_app in Rd by exact Hlen.
+  apply Forall_app in NC. destruct NC as (NC1 & NC2).
+  destruct (async_hist_complete cs1 sels1 _ _ _ _ _ (asinv_init mon0) eq_refl (fun u (I : In u []) => match I with end) HO1 NC1 Hlen Fs)
+    as (b1 & p1 & H1 & M1 & _).
+  destruct (async_hist cs2 sels2 _ _ _ _ _ _ H1 M1 HO2 NC2) as (b2 & p2 & H2 & _).
+  destruct (asinv_recover _ _ _ _ gone H2) as (c & Rd2 & Hs2).
+  rewrite Rd2 in Rd. inversion Rd; subst r. exact Hs2.
+Qed.
+
 (** Clean-up safety, structurally: (a) the in-range clean-up of [update_persisted_channel] comes only
     after the write of a full monitor in the same call and removes only ids up to that monitor's id;
     (b) [cleanup_stale_updates] removes only ids up to the id of the monitor it read for that key.
